@@ -48,7 +48,7 @@ PROPS = {
     },
     "C02": {
         "targets": ["spowtd.classify:find_stable_matching", "spowtd.classify:find_stable_matching#optimal",
-                    "spowtd.classify:disambiguate_matching"],
+                    "spowtd.classify:disambiguate_matching", "lemma:blocking_translation"],
         "bounded": [_tables("C02")],
         "level_text": "Unbounded proof of the deferred-acceptance loop: loop invariants I1-I5 give at exit that no candidate "
                       "pair blocks the result (storm side by list position, rise side by preference value); and, with strict "
@@ -57,8 +57,11 @@ PROPS = {
                       "storm-optimal stable matching, hence independent of the order in which storms are served. In disambiguate_matching "
                       "the pieces that connect list positions and preference values to durations and start offsets are proved "
                       "(candidate lists sorted by duration gap with the best last, preference = -|start offset|, matched pairs are "
-                      "listed pairs); their combination into the property's clause is a `checked_natively` clause (bounded native "
-                      "run on all small many-to-many relations), as is the table level.",
+                      "listed pairs), and lemma blocking_translation proves that these premises together with 'every candidate pair "
+                      "is on its storm's list' and 'the output is the matching read back' give the property's clause. Applying the "
+                      "lemma inside disambiguate_matching discharged every premise once, but two premises needed minutes of solver "
+                      "time and flipped under load, so the application is not part of the check: the clause itself is a "
+                      "`checked_natively` clause (bounded native run on all small many-to-many relations), as is the table level.",
         "level_note": _PURE_NOTE,
     },
     "C03": {
